@@ -42,7 +42,7 @@ calloc realloc free strdup realpath""".split()
 WRAPPED_EXTRA = """rename renameat fsync fdatasync truncate64 fchmod chmod utimensat""".split()
 # calls of main.c, wrapped by harness/drv_main.c
 WRAPPED_MAIN = """poll mount fanotify_init fanotify_mark setgroups setgid setuid
-getuid getgid getpid getgroups""".split()
+getuid getgid getpid getgroups chdir fchdir getcwd""".split()
 
 
 def log(*a):
